@@ -237,6 +237,12 @@ def m_x_Attribute(self, st, n, k):
                 nm = z3.StringVal(n.attr)
                 return self.with_raises(st, [(z3.Not(self.slot_has(st, base.z, nm)), 'AttributeError')],
                                         lambda st: k(st, VDyn(self.slot_get(st, base.z, nm))))
+            if not n.attr.startswith('__') and not any(self.method_contract(cc, n.attr) is not None for cc in self.classes):
+                # an attribute the schema does not declare (and that is no method under contract): the object's
+                # dynamic attribute map; AttributeError when it was never set
+                nm = z3.StringVal('.' + n.attr)
+                return self.with_raises(st, [(z3.Not(self.slot_has(st, base.z, nm)), 'AttributeError')],
+                                        lambda st: k(st, VDyn(self.slot_get(st, base.z, nm))))
             raise Untranslated('attribute %s of %s' % (n.attr, base.cls))
         if isinstance(base, VClassSym):
             if n.attr == '__name__':
@@ -2448,7 +2454,10 @@ def m_assign(self, st, target, v, k):
                     self.slot_set(st, base.z, z3.StringVal(target.attr), to_val(v))
                     return k(st)
                 if kind is None:
-                    raise Untranslated('assignment to unknown attribute %s.%s' % (base.cls, target.attr))
+                    # an attribute the schema does not declare: it lives in the object's dynamic attribute map (the
+                    # same has/slots arrays as packet slots), so frames see the write
+                    self.slot_set(st, base.z, z3.StringVal('.' + target.attr), to_val(v))
+                    return k(st)
                 self.write_attr(st, base, target.attr, v)
                 return k(st)
             if isinstance(base, VDyn):
